@@ -519,17 +519,56 @@ impl C20 {
                     return Some(f);
                 }
                 let mut b = Box::pin(cache.get_or_cache_candidates(name));
+                let mut more: Vec<_> = (0..extra_waiters).map(|_| Box::pin(cache.get_or_cache_candidates(name))).collect();
                 if with_listener {
                     let _ = futures::future::poll_fn(|cx| Poll::Ready(b.as_mut().poll(cx).is_ready())).await;
+                    for w in more.iter_mut() {
+                        let _ = futures::future::poll_fn(|cx| Poll::Ready(w.as_mut().poll(cx).is_ready())).await;
+                    }
                 }
                 drop(a);
                 if let Some(f) = availability(&cache, &[], &[s], "after a candidates request was abandoned while suspended in the provider") {
                     return Some(f);
                 }
+                // every waiting caller runs before any of them completes: exactly one of them may
+                // turn to the provider
+                if with_listener {
+                    let _ = futures::future::poll_fn(|cx| Poll::Ready(b.as_mut().poll(cx).is_ready())).await;
+                    for w in more.iter_mut() {
+                        let _ = futures::future::poll_fn(|cx| Poll::Ready(w.as_mut().poll(cx).is_ready())).await;
+                    }
+                    let outstanding = sched.outstanding().iter().filter(|(k, key)| *k == crate::sched::ReqKind::Candidates && *key == name.0).count();
+                    if outstanding > 1 {
+                        return Some(bad(
+                            "duplicate-provider-request",
+                            format!(
+                                "after the caller that made the request was dropped, {outstanding} requests for the candidates of {} are outstanding at the same time ({} callers were waiting)",
+                                u.packages[pkg].name,
+                                1 + extra_waiters
+                            ),
+                        ));
+                    }
+                }
                 let got = match b.await {
                     Ok(cands) => cands.candidates.clone(),
                     Err(_) => return Some(bad("unexpected-cancel", "candidates after an abandoned request".into())),
                 };
+                for w in more {
+                    if w.await.is_err() {
+                        return Some(bad("unexpected-cancel", "candidates after an abandoned request (further waiting caller)".into()));
+                    }
+                }
+                let started = cache.provider().log.borrow().iter().filter(|c| matches!(c, Call::GetCandidates(x) if *x == name.0)).count();
+                if started != 2 {
+                    return Some(bad(
+                        "duplicate-provider-request",
+                        format!(
+                            "get_candidates({}) was started {started} times: once by the caller that was dropped, and it should be started exactly once more for the {} caller(s) that were waiting",
+                            u.packages[pkg].name,
+                            1 + extra_waiters
+                        ),
+                    ));
+                }
                 let want = cache.provider().candidates_of(pkg).unwrap_or_default().candidates;
                 if got != want {
                     return Some(bad("candidates", format!("after an abandoned request: {got:?} vs provider {want:?}")));
